@@ -53,7 +53,11 @@ type reg struct {
 	hs      []handler
 }
 
-type config struct{ cs, strict, unesc, custom bool }
+type config struct {
+	cs, strict, unesc, custom bool
+	// custom Config.RequestMethods (nil = default methods)
+	methods []string
+}
 
 type customCtx struct {
 	fiber.DefaultCtx
@@ -70,10 +74,62 @@ type state struct {
 const maxCalls = 1000
 
 func (c config) String() string {
-	return "c" + gen.B(c.cs) + "s" + gen.B(c.strict) + "u" + gen.B(c.unesc) + "x" + gen.B(c.custom)
+	out := "c" + gen.B(c.cs) + "s" + gen.B(c.strict) + "u" + gen.B(c.unesc) + "x" + gen.B(c.custom)
+	if c.methods != nil {
+		out += "@" + strings.Join(c.methods, ".")
+	}
+	return out
+}
+
+// methodList is Config.RequestMethods as the app sees it
+func (c config) methodList() []string {
+	if c.methods != nil {
+		return c.methods
+	}
+	return fiber.DefaultMethods
+}
+
+func (c config) listed(m string) bool {
+	for _, x := range c.methodList() {
+		if x == m {
+			return true
+		}
+	}
+	return false
+}
+
+// validName: a syntactically acceptable method name of the harness (upper-case letters)
+func validName(m string) bool {
+	if m == "" || len(m) > 12 {
+		return false
+	}
+	for i := 0; i < len(m); i++ {
+		if m[i] < 'A' || m[i] > 'Z' {
+			return false
+		}
+	}
+	return true
 }
 
 func parseConfig(s string) (config, bool) {
+	var methods []string
+	if i := strings.IndexByte(s, '@'); i >= 0 {
+		methods = strings.Split(s[i+1:], ".")
+		s = s[:i]
+		seen := map[string]bool{}
+		for _, m := range methods {
+			if !validName(m) || seen[m] {
+				return config{}, false
+			}
+			seen[m] = true
+		}
+	}
+	c, ok := parseConfig0(s)
+	c.methods = methods
+	return c, ok
+}
+
+func parseConfig0(s string) (config, bool) {
 	if len(s) != 8 || s[0] != 'c' || s[2] != 's' || s[4] != 'u' || s[6] != 'x' {
 		return config{}, false
 	}
@@ -82,7 +138,7 @@ func parseConfig(s string) (config, bool) {
 			return config{}, false
 		}
 	}
-	return config{s[1] == '1', s[3] == '1', s[5] == '1', s[7] == '1'}, true
+	return config{cs: s[1] == '1', strict: s[3] == '1', unesc: s[5] == '1', custom: s[7] == '1'}, true
 }
 
 func hexDot(xs []string) string {
@@ -141,8 +197,6 @@ func (g reg) String() string {
 	return string(g.kind) + ":" + ms + ":" + hexDot(g.chain) + ":" + gen.Hex(g.path) + ":" + strings.Join(hs, ".")
 }
 
-var validMethods = map[string]bool{"GET": true, "HEAD": true, "POST": true, "PUT": true, "DELETE": true,
-	"CONNECT": true, "OPTIONS": true, "TRACE": true, "PATCH": true}
 
 func parseReg(s string, npaths int) (reg, bool) {
 	f := strings.Split(s, ":")
@@ -153,7 +207,7 @@ func parseReg(s string, npaths int) (reg, bool) {
 	if f[1] != "-" {
 		g.methods = strings.Split(f[1], ".")
 		for _, m := range g.methods {
-			if !validMethods[m] {
+			if !validName(m) {
 				return reg{}, false
 			}
 		}
@@ -200,7 +254,7 @@ func parseReg(s string, npaths int) (reg, bool) {
 				return reg{}, false
 			}
 		case 'm':
-			if !validMethods[sc[1:]] {
+			if !validName(sc[1:]) {
 				return reg{}, false
 			}
 		default:
@@ -242,7 +296,11 @@ func mkHandler(h handler, st *state) fiber.Handler {
 }
 
 func newApp(cfg config) *fiber.App {
-	app := fiber.New(fiber.Config{CaseSensitive: cfg.cs, StrictRouting: cfg.strict, UnescapePath: cfg.unesc})
+	fc := fiber.Config{CaseSensitive: cfg.cs, StrictRouting: cfg.strict, UnescapePath: cfg.unesc}
+	if cfg.methods != nil {
+		fc.RequestMethods = append([]string(nil), cfg.methods...)
+	}
+	app := fiber.New(fc)
 	if cfg.custom {
 		app.NewCtxFunc(func(a *fiber.App) fiber.CustomCtx {
 			return &customCtx{DefaultCtx: *fiber.NewDefaultCtx(a)}
@@ -349,7 +407,7 @@ func buildSingle(cfg config, g reg) *single {
 	for mi, stack := range s.app.Stack() {
 		if len(stack) > 0 {
 			s.route = stack[0]
-			s.method = fiber.DefaultMethods[mi]
+			s.method = cfg.methodList()[mi]
 			break
 		}
 	}
@@ -400,7 +458,7 @@ func build(cfg config, regs []reg, ovr []string) (b *built, ok bool) {
 
 // probe computes, for one raw path, c.Path() and the per-registration match / alone bits.
 func (b *built) probe(path string) (ps string, ph int, mb, ab []byte) {
-	withCtx(b.app, "GET", path, func(c fiber.Ctx) {
+	withCtx(b.app, b.cfg.methodList()[0], path, func(c fiber.Ctx) {
 		ps = string([]byte(c.Path()))
 		ph = fiber.VerifTreePathHash(c)
 	})
@@ -532,7 +590,7 @@ func replay(w *gen.Writer, file string) {
 			continue
 		}
 		cfg, ok := parseConfig(f[1])
-		if !ok || !validMethods[f[4]] {
+		if !ok || !validName(f[4]) {
 			continue
 		}
 		var paths []string
